@@ -85,6 +85,8 @@ def run_discs(c):
         cls.append("equal-radii")
     if d > 0 and abs(d * d - abs(r1 * r1 - r2 * r2)) <= 4 * math.ulp(d * d):
         cls.append("chord-through-centre")
+    if d in (r1, r2) and r1 != r2:
+        cls.append("distance-equals-a-radius")
     if 0 < d and d * d < 1e-300:
         cls.append("distance-squared-underflows")
     if d == 0:
@@ -118,7 +120,7 @@ def discs_s(draw):
     else:
         x1 = draw(st.floats(-1e4, 1e4, allow_nan=False))
         y1 = draw(st.floats(-1e4, 1e4, allow_nan=False))
-    kind = draw(st.sampled_from(["ext", "ext", "int", "int", "zero", "inside", "cross", "far", "rand", "pyth", "tiny"]))
+    kind = draw(st.sampled_from(["ext", "ext", "int", "int", "zero", "inside", "cross", "far", "rand", "pyth", "tiny", "d=r", "d=r"]))
     if kind == "pyth":
         # the common chord passes exactly through one of the centres: d^2 == |r1^2 - r2^2| in floating point
         a, b, c = draw(st.sampled_from([(5, 3, 4), (5, 4, 3), (13, 12, 5), (13, 5, 12), (17, 8, 15), (25, 7, 24), (10, 6, 8)]))
@@ -140,6 +142,9 @@ def discs_s(draw):
         D = (r1 + r2) * draw(st.floats(1, 50, allow_nan=False))
     elif kind == "pyth":
         D = c * sc
+    elif kind == "d=r":
+        # the centre of one disc lies exactly on the boundary of the other (ties between the distance and a radius)
+        D = r1 if draw(st.booleans()) else r2
     elif kind == "tiny":
         # almost coincident centres: distances whose square is far below the radii's ulp, down to the subnormal range
         if draw(st.booleans()):
@@ -174,4 +179,4 @@ def discs_s(draw):
 
 def subchecks():
     return [Sub("discs", run_discs, strategy=discs_s(), n_quick=60000, n_thorough=1500000, fuzz_thorough=30000,
-                required=("ext-tangent", "int-tangent", "equal-radii", "concentric", "crossing", "apart", "nested", "chord-through-centre", "distance-squared-underflows"))]
+                required=("ext-tangent", "int-tangent", "equal-radii", "concentric", "crossing", "apart", "nested", "chord-through-centre", "distance-squared-underflows", "distance-equals-a-radius"))]
